@@ -46,8 +46,10 @@ pub mod nd {
 pub mod mstr {
     pub const CAP: usize = 48;
     pub const NSTR: usize = 128;
-    static mut ARENA: [[u8; CAP]; NSTR] = [[0; CAP]; NSTR];
-    static mut LEN: [usize; NSTR] = [0; NSTR];
+    // (slot NSTR is never handed out: it is the empty string `<&MStr>::default()` refers to, as `<&str>::default()` does)
+    static mut ARENA: [[u8; CAP]; NSTR + 1] = [[0; CAP]; NSTR + 1];
+    static mut LEN: [usize; NSTR + 1] = [0; NSTR + 1];
+    static EMPTY: MStr = MStr { i: NSTR };
     static mut NEXT: usize = 0;
     /// When false, `format!` yields an empty string.  Harnesses of properties that do not observe thread names
     /// switch rendering off (names influence nothing else); the thread-name harnesses (C08) keep it on.
@@ -75,6 +77,8 @@ pub mod mstr {
         pub fn eq_bytes(&self, o: &[u8]) -> bool { if self.len() != o.len() { return false; } let mut i = 0; while i < o.len() { if self.at(i) != o[i] { return false; } i += 1; } true }
     }
     impl From<&str> for MStr { fn from(s: &str) -> MStr { MStr::from_str(s) } }
+    impl<'a> Default for &'a MStr { fn default() -> Self { &EMPTY } }
+    impl Default for MStr { fn default() -> Self { MStr::empty() } }
     pub enum Arg<'a> { U(usize), S(&'a MStr), Str(&'a str) }
     pub trait ToArg { fn to_arg(&self) -> Arg<'_>; }
     impl ToArg for usize { fn to_arg(&self) -> Arg<'_> { Arg::U(*self) } }
